@@ -141,8 +141,14 @@ class C20World(statuslib.World):
     case = None          # set by run_case before statuslib.evaluate
     last = None
 
+    queue = []           # cases of the batch being evaluated (one World is created per case, in order)
+    made = []
+
     def __init__(self, *a, **k):
         super(C20World, self).__init__(*a, **k)
+        if C20World.queue:
+            self.case = C20World.queue.pop(0)
+        C20World.made.append(self)
         self.events = []
         self.n_dump = 0
         self.probe_out = {}
@@ -807,62 +813,78 @@ class Outcome(object):
 
 def run_case(case):
     """execute one case; returns Outcome"""
+    return run_cases([case])[0]
+
+
+def run_cases(cases):
+    """execute a batch of cases (one driver process per phase for the whole batch); returns one Outcome per case"""
     common.use_repo()
     memoize_entry_points()
-    out = Outcome()
-    base_case = statuslib.strip(case)
-    base_case.pop('hashseed', None)
+    base_cases = []
+    for case in cases:
+        bc = statuslib.strip(case)
+        bc.pop('hashseed', None)
+        base_cases.append(bc)
     saved = statuslib.World
-    C20World.case = case
+    C20World.queue = list(cases)
+    C20World.made = []
     statuslib.World = C20World
     try:
-        v = statuslib.evaluate([base_case])[0]
+        verdicts = statuslib.evaluate(base_cases)
     finally:
         statuslib.World = saved
-    world = C20World.last
-    out.base = v
-    probes = world.probe_out
-    obs = v.obs
-    # model request: the history's model ops with a probe op after each probed history op
-    mreq, index = statuslib.to_model_ops(base_case, obs)
-    ops, where = [], {}
-    pos_of = {}
-    for i, (a, b) in enumerate(index):
-        pos_of[i] = b
-    ins = {}
-    for i, pr in probes.items():
-        if i < len(index):
-            ins.setdefault(pos_of[i], []).append(i)
-    for k, op in enumerate(mreq['ops']):
-        for i in ins.get(k, []):
+        C20World.queue = []
+    worlds = list(C20World.made)
+    assert len(worlds) == len(cases), (len(worlds), len(cases))
+    outs, reqs, wheres = [], [], []
+    for case, base_case, v, world in zip(cases, base_cases, verdicts, worlds):
+        out = Outcome()
+        out.base = v
+        outs.append(out)
+        probes = world.probe_out
+        # model request: the history's model ops with a probe op after each probed history op
+        mreq, index = statuslib.to_model_ops(base_case, v.obs)
+        ops, where, ins = [], {}, {}
+        for i, pr in probes.items():
+            if i < len(index):
+                ins.setdefault(index[i][1], []).append(i)
+        for k, op in enumerate(mreq['ops']):
+            for i in ins.get(k, []):
+                where[i] = len(ops)
+                ops.append(['probe', probe_spec_model(probes[i], case['ntasks'])])
+            ops.append(op)
+        for i in ins.get(len(mreq['ops']), []):
             where[i] = len(ops)
             ops.append(['probe', probe_spec_model(probes[i], case['ntasks'])])
-        ops.append(op)
-    for i in ins.get(len(mreq['ops']), []):
-        where[i] = len(ops)
-        ops.append(['probe', probe_spec_model(probes[i], case['ntasks'])])
-    req = {'model': 'c20', 'mode': 'model', 'ntasks': case['ntasks'], 'npaths': case['npaths'], 'ops': ops}
-    ans = common.drv_batch([req])[0]
-    if 'error' in ans:
-        raise RuntimeError('driver rejected c20 request: %s' % ans['error'])
-    checks, check_tags = [], []
-    for i, pr in sorted(probes.items()):
-        if i not in where:
-            continue
-        m = ans['steps'][where[i]]
-        if m.get('crashed') or (v.crash and v.crash[0] <= i) or (v.divergence and v.divergence[0] <= i):
-            out.count('probe:skipped-after-crash-or-divergence')
-            continue
-        compare_probe(case, i, pr, m, out, checks, check_tags)
-    if checks:
-        res = common.drv_batch([{'model': 'c20', 'mode': 'monitor', 'checks': checks}])[0]['checks']
-        for r, tag in zip(res, check_tags):
-            if 'error' in r:
-                raise RuntimeError('driver rejected c20 check: %s' % r['error'])
-            out.count('monitor:%s:%s' % (tag['clause'], 'holds' if r['holds'] else 'FALSE'))
-            if not r['holds']:
-                out.fails.append(tag)
-    return out
+        reqs.append({'model': 'c20', 'mode': 'model', 'ntasks': case['ntasks'], 'npaths': case['npaths'], 'ops': ops})
+        wheres.append(where)
+    answers = common.drv_batch(reqs)
+    mon_reqs, mon_tags = [], []
+    for case, v, world, out, ans, where in zip(cases, verdicts, worlds, outs, answers, wheres):
+        if 'error' in ans:
+            raise RuntimeError('driver rejected c20 request: %s' % ans['error'])
+        checks, check_tags = [], []
+        for i, pr in sorted(world.probe_out.items()):
+            if i not in where:
+                continue
+            m = ans['steps'][where[i]]
+            if m.get('crashed') or (v.crash and v.crash[0] <= i) or (v.divergence and v.divergence[0] <= i):
+                out.count('probe:skipped-after-crash-or-divergence')
+                continue
+            compare_probe(case, i, pr, m, out, checks, check_tags)
+        mon_reqs.append({'model': 'c20', 'mode': 'monitor', 'checks': checks})
+        mon_tags.append(check_tags)
+    if any(r['checks'] for r in mon_reqs):
+        for out, res, check_tags in zip(outs, common.drv_batch(mon_reqs), mon_tags):
+            for r, tag in zip(res['checks'], check_tags):
+                if 'error' in r:
+                    raise RuntimeError('driver rejected c20 check: %s' % r['error'])
+                out.count('monitor:%s:%s' % (tag['clause'], 'holds' if r['holds'] else 'FALSE'))
+                if not r['holds']:
+                    out.fails.append(tag)
+    for out, world in zip(outs, worlds):
+        out.world = world
+    return outs
 
 
 def probe_spec_model(pr, ntasks):
@@ -1296,11 +1318,10 @@ def process_batch(batch):
     st = common.WorkerStats()
     shrunk = 0
     reported = 0
-    for origin, case in batch:
-        case = json.loads(json.dumps(case))
-        case.pop('comment', None)
-        case.pop('matrix', None)
-        o = run_case(case)
+    batch = [(origin, {k: v for k, v in json.loads(json.dumps(case)).items() if k not in ('comment', 'matrix')})
+             for origin, case in batch]
+    outcomes = run_cases([case for _, case in batch])
+    for (origin, case), o in zip(batch, outcomes):
         nontrivial = (bool(o.shown & {'run', 'error'}) and bool(o.shown & {'up-to-date', 'ignore'})) or o.removal
         st.case({'history': render(case)}, nontrivial)
         st.traces += o.n_cmds
@@ -1398,7 +1419,7 @@ def run(ctx):
     items += [('exhaustive', c) for c in rest[ri:]]
     ctx.extra['exhaustive_small_scope'] = {'alphabet': len(EXH_LETTERS), 'group_alphabet': len(GRP_LETTERS),
                                            'max_len': 3 if deep else 2, 'histories': len(ex)}
-    size = 4 if quick else 6
+    size = 6
     batches = [items[i:i + size] for i in range(0, len(items), size)]
     per_round = common.NCPU * (6 if quick else 2)
     done = 0
